@@ -586,7 +586,7 @@ def horizontal_diffusion_step_filter(
     A function that accepts a state and returns a filtered state.
   """
   eigenvalues = grid.laplacian_eigenvalues
-  scale = dt / (tau * abs(eigenvalues[-1]) ** order)
+  scale = dt / (tau * abs(eigenvalues).max() ** order)
   filter_fn = filtering.horizontal_diffusion_filter(grid, scale, order)
   return runge_kutta_step_filter(filter_fn)
 
